@@ -243,6 +243,7 @@ def case_geodesic(T, cfg):
 
 CASES = dict(geodesic=case_geodesic, rank=case_rank, pointwise=case_pointwise, minmax=case_minmax, geotop=case_geotop, invariance=case_invariance)
 MAX_PATHS = dict(quick=3000, thorough=30000)
+CFG_BUDGET_S = dict(quick=150, thorough=400)
 
 
 def configs(tier):
